@@ -547,11 +547,19 @@ def frame_condition(it, c, bound, old):
     return b_and(*conj)
 
 
-def separation_ok(root):
+def separation_ok(root, declared=None):
     """The shapes promise that the mutable parts of an object are pairwise distinct objects (the
     object graph below `root` is a tree).  Identities are concrete in the evaluator, so this is a
-    syntactic check: False iff two access paths reach the same mutable container."""
+    syntactic check: False iff two access paths reach the same mutable container.  `declared`
+    ({field: other field} from the Alias entries of the class shape) names the sharing the shape
+    itself promises for the root object: such a field is skipped only if it really holds the
+    object of the other field."""
     seen = set()
+    if declared and isinstance(root, SObj) and not getattr(root, 'aliases', None):
+        ok = {k for k, o in declared.items()
+              if k in root.fields and o in root.fields and root.fields[k] is root.fields[o]}
+        if ok:
+            root.aliases = ok
     stack = [root]
     while stack:
         v = stack.pop()
